@@ -69,7 +69,11 @@ def _len_ok(kind, Lp, lin, d, fn):
             if a.endswith(".nbytes"):
                 base = a[: -len(".nbytes")]
                 vname = param_names(fn)[3] if len(param_names(fn)) > 3 else "value"
-                return _value_derived(d, base, vname), f"{a} (derived from the value)"
+                try:
+                    roots = [n.id for n in ast.walk(ast.parse(base, mode="eval")) if isinstance(n, ast.Name)]
+                except SyntaxError:
+                    roots = [base]
+                return any(_value_derived(d, r, vname) for r in roots), f"{a} (derived from the value)"
         return False, repr(Lp)
     if kind == "view-bytes":
         # prod(shape) * itemsize(dtype)
